@@ -363,7 +363,7 @@ theorem pemRawPass_badPass (i : PemIn) (h : pemRawPass i = .badPass) :
               have hns : dsaDer i ≠ .structural := by
                 unfold dsaDer
                 cases i.der with
-                | ok k p => by_cases hr : i.dsaRest = true <;> simp [hr]
+                | ok k p => by_cases hr : i.dsaRest = true <;> by_cases hc : dsaConsistent i = true <;> simp [hr, hc]
                 | structural => simp
                 | err => simp
               cases hd : dsaDer i with
@@ -383,14 +383,38 @@ theorem dsa_garbage_refused (i : PemIn) (h : i.dsaRest = true) : ∀ k p, dsaDer
   unfold dsaDer
   cases i.der <;> simp [h]
 
+/-- (a54718d) a DSA key whose public value is not G^X mod P, or whose X is outside (0, Q), is refused -/
+theorem dsa_inconsistent_refused (i : PemIn) (h : dsaConsistent i = false) : ∀ k p, dsaDer i ≠ .ok k p := by
+  intro k p
+  unfold dsaDer
+  cases i.der <;> simp [h]
+
+/-- … and an accepted one satisfies 0 < P, 0 < X < Q and Pub = Exp(G, X, P) -/
+theorem dsa_accepted_consistent (i : PemIn) (k p : Bytes) (h : dsaDer i = .ok k p) :
+    0 < i.dsaP ∧ 0 < i.dsaX ∧ i.dsaX < i.dsaQ ∧ i.dsaExp = i.dsaY := by
+  unfold dsaDer at h
+  cases hd : i.der with
+  | ok k' p' =>
+    rw [hd] at h
+    by_cases hr : i.dsaRest = true
+    · simp [hr] at h
+    · by_cases hc : dsaConsistent i = true
+      · have := by simpa [dsaConsistent] using hc
+        exact ⟨this.1.1.1, this.1.1.2, this.1.2, this.2⟩
+      · simp [hr, hc] at h
+  | structural => rw [hd] at h; simp at h
+  | err => rw [hd] at h; simp at h
+
 /-- ParsePrivateKey refuses keys NewSignerFromKey cannot use: P-224 and DSA parameters out of range -/
 theorem signerOf_refuses (p : Bytes) : signerOf (.ok (nm "ecdsa224") p) true = .err ∧ signerOf (.ok (nm "dsa") p) false = .err := by
   constructor <;> simp [signerOf] <;> decide
 
-example : pemRawPass ⟨false, tyRSA, nm "4,ENCRYPTED", true, 0, .structural, false⟩ = .badPass ∧
-    pemRawPass ⟨false, tyDSA, nm "4,ENCRYPTED", true, 0, .structural, false⟩ = .err ∧
-    pemRawPass ⟨false, tyPKCS8, nm "4,ENCRYPTED", true, 0, .ok (nm "rsa") [], false⟩ = .err ∧
-    pemRawPlain ⟨false, tyPKCS8, [], false, 0, .ok (nm "ed25519") [1], false⟩ = .ok (nm "ed25519") [1] ∧
-    pemRawPlain ⟨false, tyRSA, nm "xENCRYPTEDx", false, 0, .err, false⟩ = .needPass := by decide +kernel
+example : pemRawPass ⟨false, tyRSA, nm "4,ENCRYPTED", true, 0, .structural, false, 0, 0, 0, 0, 0⟩ = .badPass ∧
+    pemRawPass ⟨false, tyDSA, nm "4,ENCRYPTED", true, 0, .structural, false, 0, 0, 0, 0, 0⟩ = .err ∧
+    pemRawPlain ⟨false, tyDSA, [], false, 0, .ok (nm "dsa") [], false, 23, 11, 3, 8, 8⟩ = .ok (nm "dsa") [] ∧
+    pemRawPlain ⟨false, tyDSA, [], false, 0, .ok (nm "dsa") [], false, 23, 11, 3, 9, 8⟩ = .err ∧
+    pemRawPass ⟨false, tyPKCS8, nm "4,ENCRYPTED", true, 0, .ok (nm "rsa") [], false, 0, 0, 0, 0, 0⟩ = .err ∧
+    pemRawPlain ⟨false, tyPKCS8, [], false, 0, .ok (nm "ed25519") [1], false, 0, 0, 0, 0, 0⟩ = .ok (nm "ed25519") [1] ∧
+    pemRawPlain ⟨false, tyRSA, nm "xENCRYPTEDx", false, 0, .err, false, 0, 0, 0, 0, 0⟩ = .needPass := by decide +kernel
 
 end XC.C39
